@@ -356,30 +356,40 @@ def backwardOrder (H : Heap α) (root : Nat) : List Nat :=
 def markDirty (H : Heap α) (ns : List Nat) : Heap α :=
   ns.foldl (fun H n => H.setCtx n { H.ctx n with dirty := true }) H
 
-/-- `accumulateGrad` -/
-def accumulate (H : Heap α) (n : Nat) (g : Tensor α) : Out (Heap α) :=
-  match H.grad n with
-  | none => .ok (H.setCtx n { H.ctx n with grad := some g })
-  | some old => (vArith .add old g).bind (fun s => .ok (H.setCtx n { H.ctx n with grad := some s }))
+/-! The walk itself is generic in the gradient domain `D` (for the code: tensors), the accumulation
+`add` (for the code: the public broadcasting `Add`, which may fail) and the per-edge pullbacks `pull`
+(for the code: `evalRule`, the body of the edge's `gradFn`). The gradient store is a function from tensor
+identity to the gradient accumulated so far. -/
 
-/-- result of a walk that may stop with an error after having changed part of the heap -/
-structure BPState (α : Type) where
-  heap : Heap α
+/-- state of a walk that may stop with an error after having changed part of the store -/
+structure BPSt (D : Type) where
+  grads : Nat → Option D
   status : Out Unit := .ok ()
   /-- number of rule evaluations (`edge.gradFn()` calls) -/
   calls : Nat := 0
 
-def applyEdge (bm : BMode) (u : Nat) (s : BPState α) (e : Edge α) : BPState α :=
+def updStore {D : Type} (G : Nat → Option D) (n : Nat) (g : D) : Nat → Option D :=
+  fun m => if m = n then some g else G m
+
+/-- `accumulateGrad` -/
+def accumG {D : Type} (add : D → D → Out D) (G : Nat → Option D) (n : Nat) (g : D) : Out (Nat → Option D) :=
+  match G n with
+  | none => .ok (updStore G n g)
+  | some old => (add old g).bind (fun s => .ok (updStore G n s))
+
+/-- `backward(edge)` for an edge of node `u` -/
+def stepEdge {D R : Type} (add : D → D → Out D) (pull : R → D → Out D) (tracked : Nat → Bool)
+    (u : Nat) (s : BPSt D) (e : Nat × R) : BPSt D :=
   match s.status with
   | .ok _ =>
-    if s.heap.tracked e.target then
-      match s.heap.grad u with
+    if tracked e.1 then
+      match s.grads u with
       | none => { s with status := .panic }  -- `y.Gradient()` is nil: unreachable in topological order
       | some gy =>
-        match evalRule bm s.heap gy e.rule with
+        match pull e.2 gy with
         | .ok g =>
-          match accumulate s.heap e.target g with
-          | .ok H' => { heap := H', status := .ok (), calls := s.calls + 1 }
+          match accumG add s.grads e.1 g with
+          | .ok G' => { grads := G', status := .ok (), calls := s.calls + 1 }
           | .err => { s with status := .err, calls := s.calls + 1 }
           | .panic => { s with status := .panic, calls := s.calls + 1 }
         | .err => { s with status := .err, calls := s.calls + 1 }
@@ -387,17 +397,34 @@ def applyEdge (bm : BMode) (u : Nat) (s : BPState α) (e : Edge α) : BPState α
     else s
   | _ => s
 
-def applyNode (bm : BMode) (s : BPState α) (u : Nat) : BPState α :=
-  (s.heap.ctx u).edges.foldl (applyEdge bm u) s
+/-- the loop `for _, u := range order { for _, e := range backEdges(u) { backward(e) } }` -/
+def runBP {D R : Type} (add : D → D → Out D) (pull : R → D → Out D) (tracked : Nat → Bool)
+    (edges : Nat → List (Nat × R)) (order : List Nat) (s : BPSt D) : BPSt D :=
+  order.foldl (fun s u => (edges u).foldl (stepEdge add pull tracked u) s) s
+
+/-- write the store back into the contexts -/
+def writeBack (H : Heap α) (G : Nat → Option (Tensor α)) : Heap α :=
+  H.mapIdx (fun i nd => { nd with ctx := { nd.ctx with grad := G i } })
+
+/-- result of `BackPropagate` -/
+structure BPState (α : Type) where
+  heap : Heap α
+  status : Out Unit := .ok ()
+  calls : Nat := 0
+
+def edgesOf (H : Heap α) (u : Nat) : List (Nat × Rule α) := (H.ctx u).edges.map (fun e => (e.target, e.rule))
 
 /-- `BackPropagate(t)` -/
 def backprop (bm : BMode) (H : Heap α) (root : Nat) : BPState α :=
   if !H.tracked root then { heap := H } else
   let order := backwardOrder H root
   let H1 := markDirty H order
+  let G0 : Nat → Option (Tensor α) := fun n => H1.grad n
   -- neutral tensor; same shape, all ones (`toOnes(t) = t.Pow(0)`)
-  match accumulate H1 root (vPow (H1.val root) zero) with
-  | .ok H2 => order.foldl (applyNode bm) { heap := H2 }
+  match accumG (vArith .add) G0 root (vPow (H1.val root) zero) with
+  | .ok G1 =>
+    let s := runBP (vArith .add) (fun r gy => evalRule bm H1 gy r) H1.tracked (edgesOf H1) order { grads := G1 }
+    { heap := writeBack H1 s.grads, status := s.status, calls := s.calls }
   | .err => { heap := H1, status := .err }
   | .panic => { heap := H1, status := .panic }
 
